@@ -404,6 +404,15 @@ def g_km(draw):
     X, k, scale = c["X"], c["k"], c["scale"]
     idx = r.choice(X.shape[0], size=k, replace=X.shape[0] < k)
     c["init"] = X[idx] + scale * r.normal(0, 0.3, (k, X.shape[1]))
+    if k >= 2 and gen.choice(draw, [False, False, True]):
+        # a start that leaves a cluster without rows in the first iteration(s): a centroid far outside the data, or two
+        # identical centroids (the documented rule: an empty cluster keeps its centre, which moves with the data)
+        j = gen.integer(draw, 0, k - 1)
+        if gen.boolean(draw):
+            c["init"][j] = X.mean(axis=0) + 40.0 * (np.abs(X - X.mean(axis=0)).max() + scale) * r.choice([-1.0, 1.0], X.shape[1])
+        else:
+            c["init"][j] = c["init"][(j + 1) % k]
+        c["empty_start"] = True
     F = X.shape[1]
     Q = np.eye(F)
     for _ in range(gen.integer(draw, 0, 3) if F >= 2 else 0):
@@ -446,7 +455,10 @@ def c_km(ctx, case):
         if margin < 1e-6:
             ctx.discard("near-tie")
         if (counts == 0).any():
-            ctx.discard("empty cluster")
+            # only the discard rules need this trajectory: an empty cluster stays where it is (the relation under
+            # test compares the code under test with itself on transformed data, whatever it does with such a cluster)
+            new = np.where(counts[:, None] > 0, new, cent)
+            ctx.event("a cluster without rows in some iteration")
         cent = new
     X2 = s * (X @ Q) + t[None, :]
     init2 = s * (case["init"] @ Q) + t[None, :]
